@@ -46,7 +46,7 @@ type protected struct {
 func newCryptoWorld(w *kernel.World, plan *kernel.Plan, rng *kernel.RNG, prop string) (*cryptoWorld, error) {
 	cols := []colKind{{Name: "c1", Envelope: "acrablock"}, {Name: "c2", Envelope: "acrastruct"}}
 	pw, err := NewPgWorld(w, rng, PgWorldConfig{SchemaYAML: schemaYAML(cols), Clients: []string{owner, stranger}, ChunkMode: int(plan.Sw("chunk")),
-		MySQL: plan.Sw("mysql") == 1, MyDeprecateEOF: plan.Sw("depeof") == 1})
+		MySQL: plan.Sw("mysql") == 1, MyDeprecateEOF: plan.Sw("depeof") == 1, KeystoreV2: plan.Sw("ksv2") == 1})
 	if err != nil {
 		return nil, err
 	}
@@ -203,7 +203,7 @@ func (C01) ID() string { return "C01" }
 func (C01) Explore(x *kernel.Explorer, seed uint64) {
 	r := kernel.NewRNG(seed, 0xc01)
 	for i := 0; i < 3 && !x.Expired(); i++ {
-		plan := &kernel.Plan{Prop: "C01", Seed: kernel.Mix(seed, uint64(i)), Swarm: map[string]int64{"mysql": int64(r.Intn(3) / 2), "depeof": int64(r.Intn(2)), "wyield": int64(r.Intn(2)), "chunk": int64(r.Intn(4))}}
+		plan := &kernel.Plan{Prop: "C01", Seed: kernel.Mix(seed, uint64(i)), Swarm: map[string]int64{"ksv2": int64(r.Intn(3) / 2), "mysql": int64(r.Intn(3) / 2), "depeof": int64(r.Intn(2)), "wyield": int64(r.Intn(2)), "chunk": int64(r.Intn(4))}}
 		n := 2 + r.Intn(6)
 		for j := 0; j < n; j++ {
 			plan.Ops = append(plan.Ops, kernel.Op{ID: j + 1, Kind: "roundtrip", A: []int64{
@@ -305,7 +305,7 @@ func (C02) ID() string { return "C02" }
 func (C02) Explore(x *kernel.Explorer, seed uint64) {
 	r := kernel.NewRNG(seed, 0xc02)
 	for i := 0; i < 3 && !x.Expired(); i++ {
-		plan := &kernel.Plan{Prop: "C02", Seed: kernel.Mix(seed, uint64(i)), Swarm: map[string]int64{"tls": int64(r.Intn(2)), "mysql": int64(r.Intn(3) / 2), "depeof": int64(r.Intn(2)), "wyield": int64(r.Intn(2)), "chunk": int64(r.Intn(4))}}
+		plan := &kernel.Plan{Prop: "C02", Seed: kernel.Mix(seed, uint64(i)), Swarm: map[string]int64{"tls": int64(r.Intn(2)), "ksv2": int64(r.Intn(3) / 2), "mysql": int64(r.Intn(3) / 2), "depeof": int64(r.Intn(2)), "wyield": int64(r.Intn(2)), "chunk": int64(r.Intn(4))}}
 		n := 2 + r.Intn(6)
 		for j := 0; j < n; j++ {
 			plan.Ops = append(plan.Ops, kernel.Op{ID: j + 1, Kind: "cross", A: []int64{
